@@ -5,10 +5,10 @@ SPEC = {
     'claim': 'every scenario of the enumeration (function, variadic, awkward-argument, awkward-result, method-with-variadic-tail and interface mocks; installed by Apply, by a panicking callback, by Return/AndReturn, When/In clauses; arguments incl. nil pointers, typed-nil errors, nil func/map/slice, self- and mutually-cyclic structures, unexported-field structs, a value whose String() panics) produces byte-identical transcripts of calls, arguments seen by the replacement, results and panics under logging off, OpenDebug(), OpenTrace() and GOOM_DEBUG=1; no configuration panics or kills the process while rendering arguments',
     'note': 'the scenario list is fixed and finite; a self-containing []interface{} / map (on which fmt itself recurses forever) is not in the argument domain',
     'jobs': [
-        {'bin': 'c19', 'sub': 'off', 'shards': 1, 'discard_stdout': True, 'max_restarts': 6, 'single_timeout': 60, 'hard_timeout': 600, 'case_timeout': 30, 'hang_is_violation': True},
-        {'bin': 'c19', 'sub': 'debug', 'shards': 1, 'discard_stdout': True, 'max_restarts': 6, 'single_timeout': 60, 'hard_timeout': 600, 'case_timeout': 30, 'hang_is_violation': True},
-        {'bin': 'c19', 'sub': 'trace', 'shards': 1, 'discard_stdout': True, 'max_restarts': 6, 'single_timeout': 60, 'hard_timeout': 600, 'case_timeout': 30, 'hang_is_violation': True},
-        {'bin': 'c19', 'sub': 'env', 'shards': 1, 'discard_stdout': True, 'max_restarts': 6, 'single_timeout': 60, 'hard_timeout': 600, 'case_timeout': 30, 'hang_is_violation': True, 'env': {'GOOM_DEBUG': '1'}},
+        {'bin': 'c19', 'sub': 'off', 'shards': 1, 'discard_stdout': True, 'max_restarts': 6, 'single_timeout': 200, 'hard_timeout': 900, 'case_timeout': 120, 'hang_is_violation': True},
+        {'bin': 'c19', 'sub': 'debug', 'shards': 1, 'discard_stdout': True, 'max_restarts': 6, 'single_timeout': 200, 'hard_timeout': 900, 'case_timeout': 120, 'hang_is_violation': True},
+        {'bin': 'c19', 'sub': 'trace', 'shards': 1, 'discard_stdout': True, 'max_restarts': 6, 'single_timeout': 200, 'hard_timeout': 900, 'case_timeout': 120, 'hang_is_violation': True},
+        {'bin': 'c19', 'sub': 'env', 'shards': 1, 'discard_stdout': True, 'max_restarts': 6, 'single_timeout': 200, 'hard_timeout': 900, 'case_timeout': 120, 'hang_is_violation': True, 'env': {'GOOM_DEBUG': '1'}},
     ],
     'rule': 'scenarios = targets x mock kinds x argument vectors (quick: a subset of the awkward vectors for the stub kinds; thorough: all); one worker process per logging configuration runs all of them; distinct_nontrivial = distinct transcripts; '
             'a scenario is judged by equality of its transcript across the four configurations (the logging-off run is the reference, no hand-written expectation).',
